@@ -392,6 +392,16 @@ func e2eAttempts(c *Ctx) {
 	for k := 0; k < c.N(6, 120); k++ {
 		cfg := baseCfg(r, r.Intn(len(baseCfgs)))
 		h := genHistory(r, cfg, histOpts{units: 4 + r.Intn(5), maxCols: 3, maxRows: 2, rotations: true, ignorables: k%2 == 0})
+		if k%3 == 2 {
+			// the stream starts in the file named "" (the master's first binlog): the stored position has an empty
+			// file name until the first rotation
+			renameFiles(h, func(i int) string {
+				if i == 1 {
+					return ""
+				}
+				return fmt.Sprintf("bin.%06d", i)
+			})
+		}
 		h.encode(c)
 		if len(h.txs) < 2 {
 			continue
